@@ -51,18 +51,24 @@ def snap_set(cs):
     return (tuple(langs), styles, snap_layout(cs.layout_info))
 
 
-def build_set(set_l=0, lang_l=0, cap_l=0, node_l=0, style=0, two_langs=False, same_times=False, italics=0, set_styles=0):
+def build_set(set_l=0, lang_l=0, cap_l=0, node_l=0, style=0, two_langs=False, same_times=False, italics=0, set_styles=0, node_l2=None):
     """style: 0 none, 1 {'class': 's1'}, 2 {'text-align': 'right', 'italics': True}
     italics: 0 none, 1 balanced span, 2 unclosed span (start only)
     set_styles: 0 none, 1 {'s1': {...}}, 2 with a 'text-align' key"""
     def cap(start, end, text):
         nodes = []
+        l2 = node_l if node_l2 is None else node_l2
         if italics:
-            nodes.append(CaptionNode.create_style(True, {"italics": True}))
+            nodes.append(CaptionNode.create_style(True, {"italics": True}, layout_info=layout(node_l) if italics == 3 else None))
         nodes.append(CaptionNode.create_text(text, layout_info=layout(node_l)))
-        if italics == 1:
-            nodes.append(CaptionNode.create_style(False, {"italics": True}))
-        nodes += [CaptionNode.create_break(layout_info=layout(node_l)), CaptionNode.create_text(text + "2", layout_info=layout(node_l))]
+        if italics in (1, 3):
+            nodes.append(CaptionNode.create_style(False, {"italics": True}, layout_info=layout(node_l) if italics == 3 else None))
+        nodes.append(CaptionNode.create_break(layout_info=layout(l2)))
+        if italics == 3:  # a second positioned span (as the DFXP reader produces for <span region=...>)
+            nodes.append(CaptionNode.create_style(True, {"italics": True}, layout_info=layout(l2)))
+        nodes.append(CaptionNode.create_text(text + "2", layout_info=layout(l2)))
+        if italics == 3:
+            nodes.append(CaptionNode.create_style(False, {"italics": True}, layout_info=layout(l2)))
         st = {} if style == 0 else ({"class": "s1"} if style == 1 else {"text-align": "right", "italics": True})
         return Caption(start, end, nodes, style=st, layout_info=layout(cap_l))
     c1 = cap(1000000, 2000000, "one")
@@ -75,6 +81,8 @@ def build_set(set_l=0, lang_l=0, cap_l=0, node_l=0, style=0, two_langs=False, sa
         styles["s1"] = {"color": "red", "font-family": "Arial"}
     if set_styles == 2:
         styles["s2"] = {"text-align": "center"}
+    if set_styles == 3:  # the same class name with other rules (another document's stylesheet)
+        styles["s1"] = {"italics": True, "bold": True}
     return CaptionSet(d, styles=styles, layout_info=layout(set_l))
 
 
@@ -113,3 +121,31 @@ class StableHash:
 
     def __exit__(self, *a):
         del _g.hash
+
+
+def mutable_ids(obj, seen=None):
+    """ids of all mutable objects reachable from a caption set (for "no shared mutable state" checks)"""
+    import enum
+    if seen is None:
+        seen = {}
+    if obj is None or isinstance(obj, (str, int, float, bool, bytes, enum.Enum, type)):
+        return seen
+    if id(obj) in seen:
+        return seen
+    if isinstance(obj, tuple):
+        for x in obj:
+            mutable_ids(x, seen)
+        return seen
+    seen[id(obj)] = type(obj).__name__
+    if isinstance(obj, dict):
+        for k, v in obj.items():
+            mutable_ids(v, seen)
+    elif isinstance(obj, (list, set)):
+        for x in obj:
+            mutable_ids(x, seen)
+    else:
+        d = getattr(obj, "__dict__", None)
+        if isinstance(d, dict):
+            for v in d.values():
+                mutable_ids(v, seen)
+    return seen
